@@ -93,6 +93,8 @@ def INDEX(arr, row_num=DEFAULT, column_num=DEFAULT, area_num=DEFAULT):
             return column_num
     def pick(seq, position):
         # 1-based position; seq[position - 1] alone would wrap around for position <= 0
+        if not isinstance(seq, list):
+            raise TypeError(seq)  # a text element is not a row: seq[position - 1] would be one of its characters
         if position < 1 or position > len(seq):
             raise IndexError(position)
         return seq[position - 1]
